@@ -1,7 +1,11 @@
 #!/bin/bash
 # runs every quick check on the current tree, one after the other; prints the summary lines
-cd /verif
-for i in 01 02 03 04 05 06 07 08 09 10 11 12 13 14 15 16 17 18 19 20; do
-  timeout 1500 bin/check C$i --tier quick 2>&1 | grep -E "^(VIOLATION|C[0-9]+ tier|infrastructure|Traceback)" 
-  echo "rc=${PIPESTATUS[0]}"
+# (under `vp run --with-repo` it uses the repository snapshot; seeds from VERIF_SEEDS, default "1")
+cd "$(dirname "$0")/.."
+[ -n "${VP_RUN_REPO:-}" ] && export VERIF_REPO=$VP_RUN_REPO && bin/check --setup
+for seed in ${VERIF_SEEDS:-${VERIF_SEED:-1}}; do
+  for i in 01 02 03 04 05 06 07 08 09 10 11 12 13 14 15 16 17 18 19 20; do
+    VERIF_SEED=$seed timeout 1500 bin/check C$i --tier quick 2>&1 | grep -E "^(VIOLATION|C[0-9]+ tier|infrastructure|Traceback)"
+    echo "rc=${PIPESTATUS[0]} seed=$seed C$i"
+  done
 done
